@@ -61,9 +61,16 @@ near_reserved_keys = st.tuples(reserved_keys, st.sampled_from(["col", "OUT", "pi
     lambda k: k.lower() not in RESERVED)
 
 
+# one header in forty is long (more than 64 KiB of header text): a long string, a long list of numbers or names
+_BIG = {"str70k": lambda: "x" * 70001, "text": lambda: "word " * 16000, "ints": lambda: list(range(20000)),
+        "names": lambda: ["field_%05d" % i for i in range(6000)], "bytes": lambda: b"\x01\xfe" * 20000}
+
+
 @st.composite
 def _header_dicts(draw):
     d = draw(st.dictionaries(keys, values, min_size=0, max_size=8))
+    if draw(st.integers(0, 39)) == 0:
+        d[draw(st.sampled_from(["big", "history", "COMMENT"]))] = _BIG[draw(st.sampled_from(sorted(_BIG)))]()
     if draw(st.integers(0, 5)) == 0:
         for _ in range(draw(st.integers(1, 2))):
             d[draw(reserved_keys)] = draw(reserved_values)
@@ -107,6 +114,9 @@ def labels(hdr):
         labs.add("hdr:reserved-name-given")
     if any(isinstance(k, str) and not is_reserved(k) and any(r in k.lower() for r in RESERVED) for k in hdr):
         labs.add("hdr:key-contains-reserved-name")
+
+    if any((isinstance(v, (str, bytes, list)) and len(v) >= 6000) for v in hdr.values()):
+        labs.add("hdr:longer-than-64KiB")
 
     def walk(v, depth):
         if isinstance(v, str):
